@@ -23,7 +23,7 @@ def gen_cfg(r, tier):
 class C18(Prop):
     id = "C18"
     lean_modules = ["Fan2go.Props.C18"]
-    fact_modules = ["Fan2go.Props.Facts"]
+    fact_modules = ["Fan2go.Props.Facts", "Fan2go.Props.Trans3Perm", "Fan2go.Props.Trans3Exec"]
     rule = ("perm: real files on the real filesystem (we run as root; chown to a foreign uid/gid works): {root,other} x "
             "{root,other} x permission modes (all 512 in the thorough tier, a sample biased to g+w / o+w / x bits in quick) x "
             "{direct, symlink}; each is a script dropping a marker file; twice: ownership/mode changed between two executions; "
@@ -66,6 +66,13 @@ class C18(Prop):
                         out.append(viol(f"a relative executable path was resolved differently for the permission check and for the start: a "
                                         f"world-writable script of a non-root owner was executed: {op} -> {g}", cops[:2] + [op], cgo[:2] + [g]))
                     if str(r.get("run", "")).startswith("panic"):
+                        out.append(viol(f"the call panicked: {op} -> {g}", cops[:2] + [op], cgo[:2] + [g]))
+                elif op.startswith("ex.queue"):
+                    if r.get("marker") == "1" or "ok:9" in g:
+                        out.append(viol(f"a call that had to wait for another call on the same executable ran the file that had meanwhile been "
+                                        f"replaced by a non-root owner's (the check was not made directly before THIS execution): {op} -> {g}",
+                                        cops[:2] + [op], cgo[:2] + [g]))
+                    if "panic" in g:
                         out.append(viol(f"the call panicked: {op} -> {g}", cops[:2] + [op], cgo[:2] + [g]))
                 elif op.startswith("ex.busy"):
                     if r.get("marker") == "1":
